@@ -149,6 +149,11 @@ theorem ruleAt_head_only (h : SNote) (N : List SNote) (t : Int) (hh : h.a < t) (
 def withHead (k : Int) (head : Option (Int × Int)) (xs : List Int) : List SNote :=
   closeCur (closeAt k xs) head ++ melT k xs
 
+theorem isPitch_iff (x : Int) : isPitch x = true ↔ 0 ≤ x ∧ x ≤ 127 := by
+  unfold isPitch
+  rw [Bool.and_eq_true, decide_eq_true_iff, decide_eq_true_iff]
+  rfl
+
 theorem isPitch_note_off : isPitch C07.Gen.MELODY_NOTE_OFF = false := by decide
 theorem isPitch_no_event : isPitch C07.Gen.MELODY_NO_EVENT = false := by decide
 
